@@ -1,6 +1,6 @@
 ENTRY = {
     "level": "proof",
-    "families": [fam("C32", 150, 6000)],
+    "families": [fam("C32", 150, 1500)],
     "gen_items": [],
     "rule": "cases: connected join graphs of 2..7 relations (chain, star, cycle, random tree + extra edges, clique <= 4; 1/3 of the edges composite, "
             "1/12 three-column), ~10% disconnected; naming U (unique column names, half unqualified), S (same key name on both sides, qualified), "
